@@ -989,6 +989,7 @@ def run_catalogue(args, R):
 # ---------------------------------------------------------------- formats --
 REQUESTS = [None, 'latex', 'dimacs', 'opb', 'bogus']
 TARGETS = ['path:out.tex', 'path:out.opb', 'path:out.cnf', 'path:out',
+           'path:opb', 'path:tex', 'path:.opb', 'path:.tex', 'path:out.tex.', 'path:out.TEX',
            'path:dir.tex/out', 'path:out.tex.cnf',
            'file:out.tex', 'file:out.opb', 'file:out.cnf', 'file:out',
            'stringio', 'stringio-named:x.tex', 'stringio-named:x.opb',
@@ -1001,9 +1002,8 @@ def target_extension(target):
     if kind in ('stringio', 'stdout', 'tmpfile'):
         return ''
     base = name.rsplit('/', 1)[-1]
-    if '.' not in base:
-        return ''
-    return base.rsplit('.', 1)[-1]
+    # as os.path.splitext: a name that merely STARTS with a dot has no extension
+    return os.path.splitext(base)[1][1:]
 
 
 def expected_format(cls, request, target):
